@@ -63,7 +63,7 @@ def r1(ctx: Context, sites) -> None:
                 if oc is c or oc is trans[0] or not isinstance(oc.func, ast.Attribute):
                     continue
                 recv = ast.unparse(oc.func.value)
-                if not (recv.startswith("self.app.") or recv == "self.app"):
+                if not (recv.startswith("self.app.") or recv == "self.app") or recv.startswith("self.app.logger"):
                     continue
                 on = {n.id for n in cfg_node_of(g, f.node, oc, pm)}
                 # reachable: transition -> oc -> release (normal edges)
